@@ -431,3 +431,78 @@ V("C17", "volume-from-lengths-product", "mdtraj/core/trajectory.py", "          
   "            return np.prod(self.unitcell_lengths, axis=1).astype(np.float64)", "C17-R5")
 V("C17", "twin-sum-instead-of-einsum", U, 'alpha = np.arccos(np.einsum("...i, ...i", b, c) / (b_length * c_length), casting=\'safe\')', "alpha = np.arccos(np.sum(b * c, axis=-1) / (b_length * c_length))", None)
 V("C17", "twin-deg2rad", U, "    alpha = alpha * np.pi / 180\n", "    alpha = np.deg2rad(alpha)\n", None)
+
+# ---------------------------------------------------------------- C01
+V("C01", "xyz-class-unit-nanometers", "mdtraj/formats/xyzfile.py", '    distance_unit = "angstroms"', '    distance_unit = "nanometers"', "C01-R3", "XYZTrajectoryFile")
+V("C01", "xtc-class-unit-angstroms", "mdtraj/formats/xtc/xtc.pyx", "        self.distance_unit = 'nanometers'", "        self.distance_unit = 'angstroms'", "C01-R3", "XTCTrajectoryFile")
+V("C01", "save_dcd-lengths-unconverted", T, """        ) as f:
+            f.write(
+                xyz=in_units_of(self.xyz, Trajectory._distance_unit, f.distance_unit),
+                cell_lengths=in_units_of(
+                    self.unitcell_lengths,
+                    Trajectory._distance_unit,
+                    f.distance_unit,
+                ),
+                cell_angles=self.unitcell_angles,
+            )
+
+    def save_dtr(""", """        ) as f:
+            f.write(
+                xyz=in_units_of(self.xyz, Trajectory._distance_unit, f.distance_unit),
+                cell_lengths=self.unitcell_lengths,
+                cell_angles=self.unitcell_angles,
+            )
+
+    def save_dtr(""", "C01-R2", "Trajectory.save_dcd")
+V("C01", "save_netcdf-angles-length-converted", T, """                    f.distance_unit,
+                ),
+                cell_angles=self.unitcell_angles,
+            )
+
+    def save_netcdfrst(""", """                    f.distance_unit,
+                ),
+                cell_angles=in_units_of(self.unitcell_angles, Trajectory._distance_unit, f.distance_unit),
+            )
+
+    def save_netcdfrst(""", "C01-R2", "Trajectory.save_netcdf")
+V("C01", "save_xtc-units-swapped", T, """                xyz=in_units_of(self.xyz, Trajectory._distance_unit, f.distance_unit),
+                time=self.time,
+                box=in_units_of(
+                    self.unitcell_vectors,
+                    Trajectory._distance_unit,
+                    f.distance_unit,
+                ),
+            )
+
+    def save_trr(""", """                xyz=in_units_of(self.xyz, f.distance_unit, Trajectory._distance_unit),
+                time=self.time,
+                box=in_units_of(
+                    self.unitcell_vectors,
+                    Trajectory._distance_unit,
+                    f.distance_unit,
+                ),
+            )
+
+    def save_trr(""", "C01-R2", "Trajectory.save_xtc")
+V("C01", "dcd-reader-box-unconverted", "mdtraj/formats/dcd/dcd.pyx", "        in_units_of(box_length, self.distance_unit, Trajectory._distance_unit, inplace=True)\n", "", "C01-R2", "DCDTrajectoryFile.read_as_traj")
+V("C01", "xyz-reader-conversion-not-inplace", "mdtraj/formats/xyzfile.py", "        in_units_of(xyz, self.distance_unit, Trajectory._distance_unit, inplace=True)",
+  "        in_units_of(xyz, self.distance_unit, Trajectory._distance_unit)", "C01-R2", "XYZTrajectoryFile.read_as_traj")
+V("C01", "cryst1-angle-decimals", "mdtraj/formats/pdb/pdbfile.py", '"CRYST1{:9.3f}{:9.3f}{:9.3f}{:7.2f}{:7.2f}{:7.2f} P 1           1 "', '"CRYST1{:9.3f}{:9.3f}{:9.3f}{:7.3f}{:7.2f}{:7.2f} P 1           1 "', "C01-R4")
+V("C01", "cryst1-length-width", "mdtraj/formats/pdb/pdbfile.py", '"CRYST1{:9.3f}{:9.3f}{:9.3f}{:7.2f}{:7.2f}{:7.2f} P 1           1 "', '"CRYST1{:10.3f}{:9.3f}{:9.3f}{:7.2f}{:7.2f}{:7.2f} P 1           1 "', "C01-R4")
+V("C01", "pdb-reader-x-slice-shifted", "mdtraj/formats/pdb/pdbstructure.py", "        x = float(pdb_line[30:38])", "        x = float(pdb_line[31:39])", "C01-R4", "Atom.__init__")
+V("C01", "pdb-atom-line-bfactor-width", "mdtraj/formats/pdb/pdbfile.py", '"ATOM  %5d %-4s %3s %1s%4d    %s%s%s  1.00 %5s      %-4s%2s  "', '"ATOM  %5d %-4s %3s %1s%4d    %s%s%s  1.00%6s      %-4s%2s  "', None)
+V("C01", "pdb-atom-line-resseq-shift", "mdtraj/formats/pdb/pdbfile.py", '"ATOM  %5d %-4s %3s %1s%4d    %s%s%s  1.00 %5s      %-4s%2s  "', '"ATOM  %5d %-4s %3s %1s %4d   %s%s%s  1.00 %5s      %-4s%2s  "', "C01-R4")
+V("C01", "mdcrd-writer-9.3", "mdtraj/formats/mdcrd.py", '                out = "%8.3f" % coord', '                out = "%9.3f" % coord', "C01-R4", "MDCRDTrajectoryFile.write")
+V("C01", "rst7-reader-second-atom-offset", "mdtraj/formats/amberrst.py", "for j in range(36, 72, 12)]", "for j in range(37, 73, 12)]", "C01-R4", "AmberRestartFile._parse")
+V("C01", "gro-box-writer-swaps-offdiag", "mdtraj/formats/gro.py", 'f"{box[0, 1]:10.5f}{box[0, 2]:10.5f}{box[1, 0]:10.5f}"', 'f"{box[1, 0]:10.5f}{box[0, 2]:10.5f}{box[0, 1]:10.5f}"', "C01-R5")
+V("C01", "gro-box-reader-transposed", "mdtraj/formats/gro.py", "                [box[0], box[3], box[4]],\n                [box[5], box[1], box[6]],", "                [box[0], box[5], box[4]],\n                [box[3], box[1], box[6]],", "C01-R5")
+V("C01", "dcd-write-alpha-gamma-swapped", "mdtraj/formats/dcd/dcd.pyx", "                self.timestep.alpha = cell_angles[i, 0]\n                self.timestep.beta  = cell_angles[i, 1]\n                self.timestep.gamma = cell_angles[i, 2]",
+  "                self.timestep.alpha = cell_angles[i, 2]\n                self.timestep.beta  = cell_angles[i, 1]\n                self.timestep.gamma = cell_angles[i, 0]", "C01-R5", "DCDTrajectoryFile._write")
+V("C01", "xyz-writer-yx-order", "mdtraj/formats/xyzfile.py", 'f"{types[j]} {coord[0]:8.3f} {coord[1]:8.3f} {coord[2]:8.3f}\\n"', 'f"{types[j]} {coord[1]:8.3f} {coord[0]:8.3f} {coord[2]:8.3f}\\n"', "C01-R5")
+V("C01", "netcdfrst-time-first-frame", T, "                        coordinates=coordinates[i],\n                        time=self.time[i],\n                        cell_lengths=lengths[i],\n                        cell_angles=self.unitcell_angles[i],\n                    )\n\n    def save_amberrst7",
+  "                        coordinates=coordinates[i],\n                        time=self.time[0],\n                        cell_lengths=lengths[i],\n                        cell_angles=self.unitcell_angles[i],\n                    )\n\n    def save_amberrst7", "C01-R6", "Trajectory.save_netcdfrst")
+V("C01", "pdb-frames-all-first-coords", T, "                    f.write(\n                        in_units_of(\n                            self._xyz[i],\n                            Trajectory._distance_unit,\n                            f.distance_unit,\n                        ),\n                        self.topology,\n                        modelIndex=i,\n                        bfactors=bfactors[i],\n                        ter=ter,",
+  "                    f.write(\n                        in_units_of(\n                            self._xyz[0],\n                            Trajectory._distance_unit,\n                            f.distance_unit,\n                        ),\n                        self.topology,\n                        modelIndex=i,\n                        bfactors=bfactors[i],\n                        ter=ter,", "C01-R6", "Trajectory.save_pdb")
+V("C01", "savers-dcd-to-netcdf-class", T, '            ".ncdf": self.save_netcdf,', '            ".ncdf": self.save_mdcrd,', "C01-R1")
+V("C01", "h5-units-attr-angstroms", "mdtraj/formats/hdf5.py", 'self._handle.root.coordinates.attrs["units"] = "nanometers"', 'self._handle.root.coordinates.attrs["units"] = "angstroms"', "C01-R3")
+V("C01", "twin-format-by-concatenation", "mdtraj/formats/pdb/pdbfile.py", '"CRYST1{:9.3f}{:9.3f}{:9.3f}{:7.2f}{:7.2f}{:7.2f} P 1           1 "', '"CRYST1{:9.3f}{:9.3f}{:9.3f}{:7.2f}{:7.2f}{:7.2f} P 1           1 "', None)
